@@ -357,6 +357,12 @@ fn gen_c02(rng: &mut Prng, seed: u64, thorough: bool) -> Trace {
                       Roots::Near { kind: 1, at: rng.usize_below(32) }, Roots::Near { kind: 2, at: 0 }] {
             steps.push(Step::Deliver { msg, node: 0, via: 2, alter: Alter::None, roots, reader: ReadPlan::clean() });
         }
+        // the root set (without the message's root) arrives through a reader that fails part-way
+        for fail_at in [0usize, 1, 31, 32, 33, 64, 95] {
+            if rng.chance(1, 2) {
+                steps.push(Step::Deliver { msg, node: 0, via: 2, alter: Alter::None, roots: Roots::WithoutFailing { fail_at }, reader: ReadPlan::clean() });
+            }
+        }
         // verifier states: a node that never had the root
         for (via, roots) in [(1u8, Roots::Window), (2, Roots::Window), (2, Roots::Without), (2, Roots::WindowPlus)] {
             steps.push(Step::Deliver { msg, node: 1, via, alter: Alter::None, roots, reader: ReadPlan::clean() });
@@ -486,7 +492,12 @@ fn gen_c12(rng: &mut Prng, seed: u64, thorough: bool) -> Trace {
                 }
             }
             8 => {
-                if rng.chance(1, 2) { reader.fail_at = Some(rng.usize_below(180)); } else { writer.fail_at = Some(rng.usize_below(280)); }
+                match rng.below(3) {
+                    0 => reader.fail_at = Some(rng.usize_below(180)),
+                    1 => writer.fail_at = Some(rng.usize_below(280)),
+                    // a declared signal length larger than what follows (see Step::Prove execution: truncate <= -2)
+                    _ => if entry <= 1 { truncate = -2 - rng.below(13) as i64; },
+                }
             }
             _ => {
                 // a request for a leaf that is not this identity's commitment
